@@ -64,8 +64,10 @@ def chanstep(prof, quick, thorough):
 
 
 PUBSUB_FREE = ("free-running concurrent ChanPubSub programs in a synctest bubble: 0-5 subscribers (manual Add/C/Wait loops, SubscribeContext iterators, iterators "
-               "never run) each leaving at a drawn trigger (after n receipts, after the j-th Send call plus k yields, by cancel, by break), 1-3 concurrent senders x 1-6 "
-               "messages, one witness subscriber standing throughout; Gosched perturbation at drawn points; oracles over the recorded history (logical clock): per-message "
+               "never run) each leaving at a drawn trigger (after n receipts, after the j-th Send call plus k yields, by cancel, by break, by a recovered panic or runtime.Goexit in the loop body), bulk "
+               "holders (Add(+k) ... Add(-k) without receiving), iterator contexts that cancel themselves right after an Err() call, 1-3 concurrent senders x 1-6 messages, a witness subscriber "
+               "standing throughout in two thirds of the cases (else successor-consistency order oracle); Gosched bursts at harness points and at the library's instrumentation points "
+               "(in one case out of twenty one point stalls for 30000 yields); oracles over the recorded history (logical clock): per-message "
                "receipts == Send return, no duplicates, no stale or invented message, standing subscriptions receive, Send returns after n receipts+Wait calls, one global order "
                "(witness) extending sender order and real time with every stream a contiguous run, no panic, final count 0, fresh round works; termination via bubble deadlock "
                "detection + real-time stall watchdog. ")
@@ -84,7 +86,7 @@ def pubsubstep(prof, quick, thorough):
 
 def pubsubfree(prof, quick, thorough):
     return {"name": "pubsubfree", "test": "TestPubSubFree", "checks": {"quick": quick, "thorough": thorough},
-            "shards": {"quick": 8, "thorough": 16}, "env": {"VKIT_PROFILE": prof}, "stall_sig": prof + "/stall"}
+            "shards": {"quick": 12, "thorough": 16}, "env": {"VKIT_PROFILE": prof}, "stall_sig": prof + "/stall"}
 
 
 EXCL_MODEL = ("rapid state machine over bigbuff.Exclusive in a synctest bubble: rules call(style in Call/CallAfter/CallAsync/CallAfterAsync/Start/StartAfter/"
